@@ -230,9 +230,34 @@ func (b *B) analyse(n *Node) {
 		n.SLo, n.SHi = a[0].SLo, a[0].SHi
 	case OpIte:
 		x, y := a[1], a[2]
-		n.ULo, n.UHi = minu(x.ULo, y.ULo), maxu(x.UHi, y.UHi)
-		n.SLo, n.SHi = min64(x.SLo, y.SLo), max64(x.SHi, y.SHi)
+		xlo, xhi, ylo, yhi := x.ULo, x.UHi, y.ULo, y.UHi
+		xs0, xs1, ys0, ys1 := x.SLo, x.SHi, y.SLo, y.SHi
+		// ite(p < k, p, p - k): the conditional subtraction produced for "p mod k" with p < 2k
+		if c := a[0]; c.Op == OpUlt && c.Args[1].IsConst() && c.Args[0] == x {
+			k := c.Args[1].K
+			if k > 0 && xhi > k-1 {
+				xhi = k - 1
+				if xhi < uint64(1)<<uint(w-1) {
+					xs0, xs1 = 0, int64(xhi)
+				}
+				if xlo > xhi {
+					xlo = 0
+				}
+			}
+			if y.Op == OpAdd && y.Args[0] == x && y.Args[1].IsConst() && y.Args[1].K == (-k)&m && x.UHi >= k {
+				ylo, yhi = 0, x.UHi-k
+				if x.ULo > k {
+					ylo = x.ULo - k
+				}
+				if yhi < uint64(1)<<uint(w-1) {
+					ys0, ys1 = int64(ylo), int64(yhi)
+				}
+			}
+		}
+		n.ULo, n.UHi = minu(xlo, ylo), maxu(xhi, yhi)
+		n.SLo, n.SHi = min64(xs0, ys0), max64(xs1, ys1)
 		n.KZ = x.KZ & y.KZ
+
 	case OpB2V:
 		n.ULo, n.UHi = 0, 1
 		n.KZ = m &^ 1
